@@ -635,6 +635,9 @@ def main(rep, tier, only):
     if only in (None, "WRAP2", "COUNT"):
         from checks import c16_more
         c16_more.rules(rep, db, INLINE)
+    if only in (None, "FIND-BY"):
+        from checks import c16_more
+        c16_more.rules_find_by(rep, db, INLINE)
     if only in (None, "JOIN"):
         from checks import c16_more
         c16_more.rules_join(rep, load.load(tier, lib=False, drivers=["drv_containers", "drv_algorithms"]), INLINE)
